@@ -52,7 +52,9 @@ theorem nat_eq_of_bv {a b : Nat} (ha : a < 256) (hb : b < 256)
 /-- returned `int` of `utf8_get_char` -/
 theorem bridge_get_char_ret (rd : Nat → BitVec 8) (avail : Nat) :
     (Usual.Gen.C11.utf8_get_char rd avail).1 = (getChar rd avail).1 := by
-  unfold Usual.Gen.C11.utf8_get_char getChar getCharW bad dec2 dec3 dec4 isTail z
+  unfold Usual.Gen.C11.utf8_get_char getChar getCharW
+  simp only [UsualProofs.C11.bad_eq]
+  unfold dec2 dec3 dec4 isTail z
   simp only [Nat.zero_add, BitVec.toNat_ofNat, Nat.reducePow, Nat.reduceMod, apply_ite Prod.fst]
   generalize rd 0 = b0; generalize rd 1 = b1; generalize rd 2 = b2; generalize rd 3 = b3
   simp only [gt_iff_lt, Nat.lt_succ_iff]
@@ -64,7 +66,9 @@ theorem bridge_get_char_ret (rd : Nat → BitVec 8) (avail : Nat) :
 /-- number of bytes `utf8_get_char` advances `*src_p` -/
 theorem bridge_get_char_adv (rd : Nat → BitVec 8) (avail : Nat) :
     (Usual.Gen.C11.utf8_get_char rd avail).2 = (getChar rd avail).2 := by
-  unfold Usual.Gen.C11.utf8_get_char getChar getCharW bad dec2 dec3 dec4 isTail z
+  unfold Usual.Gen.C11.utf8_get_char getChar getCharW
+  simp only [UsualProofs.C11.bad_eq]
+  unfold dec2 dec3 dec4 isTail z
   simp only [Nat.zero_add, BitVec.toNat_ofNat, Nat.reducePow, Nat.reduceMod, apply_ite Prod.snd]
   generalize rd 0 = b0; generalize rd 1 = b1; generalize rd 2 = b2; generalize rd 3 = b3
   simp only [gt_iff_lt, Nat.lt_succ_iff]
